@@ -4,3 +4,4 @@ export GOFLAGS=-mod=mod GOPROXY=off GOSUMDB=off GOTOOLCHAIN=local
 ROOT=$(cd "$(dirname "$0")" && pwd)
 mkdir -p "$ROOT/bin" "$ROOT/evidence"
 cd "$ROOT/harness" && go build -tags verif -o "$ROOT/bin/verifchk" ./cmd/verifchk
+cd "$ROOT/tools/maporder" && go build -o "$ROOT/bin/maporder" .
